@@ -25,6 +25,10 @@ CHECKS.update({
         text='For every node of every AST of the enumerated corpus the answers of external_references, contains_reference, contains_self_reference, contains_definition, aliases, the own-field check and the iterate() order are recorded and TLC recomputes each with the HplAst operators on the projected tree (projection walks attrs fields, not children()).',
         note='Bounded by the enumerated languages; the sibling order of the two events of a pattern is accepted in either order.',
         technique='trace validation of recorded query answers against HplAst (T_C15) over TLC-generated inputs', design='5/C15'),
+    'C08': dict(
+        text='TLC enumerates typed expression families (HplTypedGen: all depth-2 arithmetic/boolean terms, comparisons of depth-1 terms, every built-in function on every argument shape, sets, ranges, quantifiers); each is parsed and simplified by the real code and the trace spec T_C08 evaluates input and output with the exact-rational denotational semantics HplEval on a grid of valuations (strict input, Kleene output), checks kind/type preservation, HplAst!WT of the output, the vacuous-predicate rule, and that an exception is allowed only when the spec finds an identically-zero divisor or an undefined constant sub-term.',
+        note='Semantics of HplEval are a modelling decision (DESIGN section 10); float folding and transcendental functions are outside the exact model and counted as skipped; valuation grid of small values.',
+        technique='trace validation against denotational semantics in TLA+ (HplEval, T_C08) over TLC-enumerated typed families', design='5/C08'),
 })
 
 REASON_PENDING = 'check not built yet in this session (planned in DESIGN.md section 5); not claimed until its machinery exists'
